@@ -1,8 +1,9 @@
 SPECIFICATION Spec
 CONSTANTS
   GateMods <- GateModsSmall
-  Names = {"a", "h"}
-  MaxStmts = 2
+  Names = {"a"}
+  MaxStmts = 7
   MaxDepth = 2
+CONSTRAINT FocusSwitch
 INVARIANTS ScopeDepthMatchesNesting BackToGlobal IdsDense MSatisfiesR Emit
 CHECK_DEADLOCK FALSE
